@@ -26,6 +26,8 @@ struct Eff {
   bool fresh_object = false;  // slot now holds a different object (constructed by this op)
 };
 
+inline bool g_overlimit = false;  // the last applied operation was expected to fail with a capacity error (C08)
+
 inline int model_max(const World &w) {
   int mx = 0;
   for (int i = 0; i < w.K; ++i)
@@ -155,6 +157,7 @@ inline void apply(World &w, const Op &op) {
     win(call);
     disarm();
     if (over(ns)) {
+      g_overlimit = true;
       if (!W().exc || W().exc_kind != 1)
         vf::fail("C08,C01", "%s: exceeding fixed capacity (%ld > %d) %s", nm, ns, N, W().exc ? "threw the wrong exception type" : "did not throw");
       if ((long)VV.capacity() != pre.cap) vf::fail("C08", "%s: capacity changed by a failed call", nm);
@@ -322,6 +325,7 @@ inline void apply(World &w, const Op &op) {
       win([&] { VV.reserve((typename V::size_type)n); });
       disarm();
       if (kFixedThrow && n > N) {
+        g_overlimit = true;
         if (!W().exc || W().exc_kind != 1) vf::fail("C08,C01", "reserve(%d) beyond fixed capacity did not throw out_of_range", n);
         e.min_cap = -1;
       } else if (W().exc) {
@@ -662,6 +666,7 @@ inline void apply(World &w, const Op &op) {
       auto finish = [&] {
         vp = &S.v();
         if (over(n)) {
+          g_overlimit = true;
           if (!W().exc || W().exc_kind != 1) vf::fail("C08,C01", "%s: constructing %d > N elements %s", nm, n, W().exc ? "threw the wrong exception" : "did not throw");
           m.v.clear();
         } else {
